@@ -128,7 +128,10 @@ PROPS["C20"] = {
     "rule": ("histories of pool-style use of ONE compressor and ONE decompressor instance per encoding (Reset/Write*/Close/Reset(io.Discard); Reset/ReadAll/Close/Reset(NoBody); instance discarded when Reset or Close fails, exactly as connect-go's pool does): "
              "operations compress, roundtrip, decode of a valid independently-encoded stream, decode of a bit-flipped / truncated / empty stream; data empty, 1 byte, text, incompressible, >64 KiB; oracle: every compressor output is decoded to the input by the stdlib/third-party decoder of that name called directly, "
              "every valid stream decodes to exactly the original bytes with no error at Reset/Read/Close whatever preceded it, malformed input never panics. Enum: all histories up to length 3 (quick) / 4 (thorough) over a 10-operation alphabet x 6 encodings. "
-             "Non-trivial: a valid decode right after a failed one, a reuse of an instance, empty or multi-block data."),
+             "Non-trivial: a valid decode right after a failed one, a reuse of an instance, empty or multi-block data. "
+             "Wire / RawPayload: the wire tracer's decompressor for a header value (any letter case) decodes what the third-party encoder of that name produced, also when reset and reused; "
+             "the raw-payload encoder's output for an enum value is a valid stream of that name's algorithm that decodes to the payload, for any payload including the empty one. "
+             "The reference peers' use of the names is exercised end to end by C01 and C19 (all six encodings through real peers), C12 (expected names) and C14 (tracer decompression by header)."),
     "assumptions": ["corrupted brotli/identity streams may decode to arbitrary bytes (no integrity check); only crash-freedom is asserted for malformed input",
                     "decoded output is capped at 8 MiB"],
     "units": [
@@ -137,6 +140,11 @@ PROPS["C20"] = {
         {"name": "C20Enum", "pkg": COMP, "test": "TestVerifC20Enum", "kind": "enum",
          "shards": {"quick": 8, "thorough": 16}, "env_tier": {"quick": {"VERIF_C20_MAXLEN": 3}, "thorough": {"VERIF_C20_MAXLEN": 4}}},
         {"name": "C20Names", "pkg": COMP, "test": "TestVerifC20Names", "kind": "enum"},
+        # the same name / enum value denotes the same algorithm outside the compression package
+        {"name": "C20Wire", "pkg": "internal/tracer", "test": "TestVerifC20Wire", "kind": "rapid",
+         "checks": {"quick": 4000, "thorough": 60000}, "shards": {"quick": 2, "thorough": 8}},
+        {"name": "C20RawPayload", "pkg": "internal", "test": "TestVerifC20RawPayload", "kind": "rapid",
+         "checks": {"quick": 4000, "thorough": 60000}, "shards": {"quick": 2, "thorough": 8}},
     ],
 }
 
